@@ -103,4 +103,18 @@ def windows_agree(obs, ref):
     return True
 
 
-REFS = dict(ref_windows=ref_windows, observed_windows=observed_windows, windows_agree=windows_agree, ref_tb_equals=ref_tb_equals, ref_slices_from_targets=ref_slices_from_targets)
+def ref_map_slice_args(mapping, key, offset):
+    off = 0 if offset is None else offset
+    out = []
+    for field in ('start', 'stop', 'step'):
+        v = getattr(key, field)
+        if v is None:
+            out.append(None)
+        elif field == 'step':
+            out.append(v)
+        else:
+            out.append(mapping[v] + off + (1 if field == 'stop' else 0))
+    return out
+
+
+REFS = dict(ref_map_slice_args=ref_map_slice_args, ref_windows=ref_windows, observed_windows=observed_windows, windows_agree=windows_agree, ref_tb_equals=ref_tb_equals, ref_slices_from_targets=ref_slices_from_targets)
